@@ -297,10 +297,10 @@ class World:
         return self
 
     # -------- independent oracle: the innermost repository containing a real path
-    def innermost(self, real):
+    def innermost(self, real, skip_submodules=False):
         best = None
         for n, rp in self.repos.items():
-            if rp["kind"] == "bare":
+            if rp["kind"] == "bare" or (skip_submodules and rp["kind"] == "submodule"):
                 continue
             root = rp["root"]
             if real == root or real.startswith(root + os.sep):
@@ -450,7 +450,7 @@ def to_seq_form(r, v):
 def gen_v1_value(r, rwd):
     files = r.pick([None, [], ["a.txt"], ["a.txt", "/abs/b.txt"], ["../x"], [""]])
     v = v1_base(r, rwd, files)
-    k = r.weighted([(20, "valid"), (45, "mut1"), (10, "mut2"), (10, "seq"), (5, "tag"), (5, "msgseq"), (5, "scalar")])
+    k = r.weighted([(20, "valid"), (45, "mut1"), (10, "mut2"), (10, "seq"), (5, "tag"), (10, "msgseq"), (5, "scalar")])
     if k == "valid":
         return k, v
     if k == "mut1":
@@ -470,7 +470,9 @@ def gen_v1_value(r, rwd):
     if k == "msgseq":
         tr = v.get("transcript")
         if isinstance(tr, Obj):
-            ms = r.pick([[["user", "hi", None]], [["user", "hi"]], [["tool_use", "n", None, None]], [["user"]], [["nope", "x", None]],
+            ms = r.pick([[Obj([("type", r.pick([0, 1, 2, 3, 4, 5, 7, -1, 1.0, 2 ** 64, True])), ("text", "x"), ("name", "n"), ("input", 1)])],
+                         [[r.pick([0, 3, 4, 5, -1]), "hi", None]], [[4, "n", None, None]], [Obj([("type", r.pick([0, 4])), ("name", "n"), ("input", None)])],
+                         [["user", "hi", None]], [["user", "hi"]], [["tool_use", "n", None, None]], [["user"]], [["nope", "x", None]],
                          [Obj([("type", "user"), ("text", "x"), ("type", "user")])], [Obj([("text", "x")])], [Obj([("type", "user")])]])
             tr.pairs = [("messages", ms)]
         return k, v
@@ -892,7 +894,7 @@ def k7_failing(W, P, base_dir, files):
                 pw = W.repos[P]["workdir"] if P else None
                 if pw and (res == pw or res.startswith(pw + os.sep)):
                     continue
-                if W.innermost(res) != n:
+                if W.innermost(res, skip_submodules=True) != n:       # find_repository_for_file walks past submodules
                     continue
             if "\0" in s:
                 out.add(n)
